@@ -243,6 +243,8 @@ class RecipeRun:
         why = ''
         if k == 'uses':
             objs = [self.obj(n) for n in c['objs']]
+            if c.get('vers'):
+                objs = [self.W.resolve(n, v)[0] for n, v in zip(c['objs'], c['vers'])]
             if any(o is None for o in objs):
                 return {'c': k, 'out': 'skip'}
             if lc.locked:
@@ -256,6 +258,8 @@ class RecipeRun:
                 pred, why = 'RuntimeError', 'locked'
             elif any(n not in lc.declared for n in need):
                 pred, why = 'reject', 'undeclared operand'
+            elif c.get('must_reject'):
+                pred, why = 'reject', 'malformed arguments'
             elif declares is not None and declares in lc.declared:
                 pred, why = 'reject', 'duplicate name'
             elif k in ('create_solution', 'create_solution_from') and any(n not in lc.declared for n in uses if n != declares):
